@@ -42,6 +42,8 @@ struct Built {
     bool fbNonDiagonal = false;            // a FunctionBased mobilizer whose rotation function k is not a function of q_k alone
     bool fbConstantRotation = false;       // a FunctionBased mobilizer with a nonzero Constant rotation function
     bool reversedLine = false;
+    std::vector<int> cls;                  // per body (incl. Ground): bit 1 nondiagonal FunctionBased, 2 constant-offset FunctionBased,
+                                           // 4 reversed Line*, on the body itself or on any inboard body (set in addOne)
     int special = 0;                       // 0 random tree; 1 lone particles after quaternion-slot mobilizers; 2 Weld structures; 3 mixed Ball/Free/Pin orders
     std::vector<int> particles;            // bodies built as RBNodeLoneParticle (Translation on Ground, forward, identity frames, leaf)
     std::vector<int> leafWelds;
@@ -115,8 +117,13 @@ static int addOne(Built& B, vh::Rng& r, int p, int forcedType, int fkF, int mkF,
     int type = forcedType >= 0 ? forcedType : r.below(NTYPES);
     bool rev = (revF < 0 ? r.coin() : revF != 0) && type != 11;
     if (B.avoidKnown && !B.euler && (type == 13 || type == 14)) rev = false;
+    const bool o1 = B.fbNonDiagonal, o2 = B.fbConstantRotation;
+    B.fbNonDiagonal = B.fbConstantRotation = false;
     MobilizedBody mb = addBody(B, r, B.bodies[p], type, body, XPF, XBM, rev ? MobilizedBody::Reverse : MobilizedBody::Forward);
     B.bodies.push_back(mb); B.type.push_back(type);
+    if (B.cls.empty()) B.cls.push_back(0);            // Ground
+    B.cls.push_back(B.cls[p] | (B.fbNonDiagonal ? 1 : 0) | (B.fbConstantRotation ? 2 : 0) | ((rev && (type == 13 || type == 14)) ? 4 : 0));
+    B.fbNonDiagonal |= o1; B.fbConstantRotation |= o2;
     if (rev && (type == 13 || type == 14)) B.reversedLine = true;
     B.tag.push_back(std::string("mob.") + TYPE_NAMES[type] + (rev ? ".rev" : ".fwd") + ".F" + std::to_string(fk) + "M" + std::to_string(mk));
     return (int)B.bodies.size() - 1;
@@ -423,13 +430,22 @@ static void runCase(uint64_t caseSeed, int nbMax) {
         sp.updQ() = s.getQ() + h * qdot; sm.updQ() = s.getQ() - h * qdot;
         sys.realize(sp, Stage::Position); sys.realize(sm, Stage::Position);
         Vector_<SpatialVec> Jp, Jmn; matter.multiplyBySystemJacobian(sp, u, Jp); matter.multiplyBySystemJacobian(sm, u, Jmn);
-        Err e; for (int i = 0; i < nB; ++i) e.sv((Jp[i] - Jmn[i]) / (2 * h), bias[i]);
-        // input classes with their own key (see notes/C04.md: two defects of the pinned tree show exactly here)
-        std::string key = "sysJ.bias.fd";
-        if (B.fbNonDiagonal) key += ".FunctionBased.nondiagonalRotations";
-        else if (B.fbConstantRotation) key += ".FunctionBased.constantRotationOffset";
-        else if (B.reversedLine && !euler) key += ".reversedLine.quaternion";
-        vh::P("bias_eq_dJdt_u_central_difference", key, e.rel(), 2e-6);
+        // Per BODY class: the bias of a body depends only on its inboard path, so a body is judged under a known-defect key
+        // only if a mobilizer of that class lies on its own path to Ground (see notes/C04.md); every other body of every
+        // tree is judged under the plain key.
+        Err e0, e1, e2, e4; int n1 = 0, n2 = 0, n4 = 0;
+        for (int i = 0; i < nB; ++i) {
+            const int c = B.cls.empty() ? 0 : B.cls[i];
+            const SpatialVec fd = (Jp[i] - Jmn[i]) / (2 * h);
+            if (c & 1) { e1.sv(fd, bias[i]); ++n1; }
+            else if (c & 2) { e2.sv(fd, bias[i]); ++n2; }
+            else if ((c & 4) && !euler) { e4.sv(fd, bias[i]); ++n4; }
+            else e0.sv(fd, bias[i]);
+        }
+        vh::P("bias_eq_dJdt_u_central_difference", "sysJ.bias.fd", e0.rel(), 2e-6);
+        if (n1) vh::P("bias_eq_dJdt_u_central_difference", "sysJ.bias.fd.FunctionBased.nondiagonalRotations", e1.rel(), 2e-6);
+        if (n2) vh::P("bias_eq_dJdt_u_central_difference", "sysJ.bias.fd.FunctionBased.constantRotationOffset", e2.rel(), 2e-6);
+        if (n4) vh::P("bias_eq_dJdt_u_central_difference", "sysJ.bias.fd.reversedLine.quaternion", e4.rel(), 2e-6);
     }
     {   // bias terms against the accelerations the state reports after realize(Acceleration) with its udot
         sys.realize(s, Stage::Acceleration);
